@@ -208,6 +208,14 @@ theorem spitzer_zero_of_low_density (Ni Ne Ti Ee Ai qi : ℝ) (h : Ni < Const.MI
     spitzer_heating Ni Ne Ti Ee Ai qi = 0 := by
   rw [spitzer_heating_eq_spec]; simp [Spec.spitzer, h]
 
+/-- **Spitzer heating vanishes for neutrals** (through the Coulomb cross section) -/
+theorem spitzer_zero_of_neutral (Ni Ne Ti Ee Ai : ℝ) : spitzer_heating Ni Ne Ti Ee Ai 0 = 0 := by
+  unfold spitzer_heating
+  rw [coulomb_xs_zero_of_neutral]
+  split_ifs
+  · norm_num
+  · simp [max'_real]
+
 /-- heat flows from the hotter to the colder population -/
 theorem heat_hot_to_cold (Ti Tj Ai Aj ν : ℝ) (hTi : 0 < Ti) (hTj : 0 < Tj) (hAi : 0 < Ai) (hAj : 0 < Aj)
     (hν : 0 < ν) :
